@@ -75,7 +75,7 @@ func staticClosure(w *World, roots ...*ssa.Function) []*ssa.Function {
 func genC09(w *World, res *CheckResult) {
 	// Run side
 	g := genRun(w)
-	res.Obls = append(res.Obls, selectObls(g.obls, `/frame$`, `/frame-at-panic$`, `inv-(init|pres)\[(stack-own|scopes-own|scopes-fresh|prog)\]`, `^vm\.VM\.Run/pre-sat$`, `inv-sat$`)...)
+	res.Obls = append(res.Obls, selectObls(g.obls, `/frame$`, `/frame-at-panic$`, `/env-call:args-not-owned$`, `inv-(init|pres)\[(stack-own|scopes-own|scopes-fresh|prog)\]`, `^vm\.VM\.Run/pre-sat$`, `inv-sat$`)...)
 	res.Obls = append(res.Obls, genPure(w)...)
 	res.Assumptions = append(res.Assumptions, g.notes...)
 	res.Functions = append(res.Functions, g.funcs...)
@@ -86,6 +86,64 @@ func genC09(w *World, res *CheckResult) {
 		return
 	}
 	fns := staticClosure(w, root)
+	// package-level state: no function that Compile or Run can reach keeps state in a package-level
+	// variable (a cache, a counter, a pool): such a variable is only ever loaded, and nothing outside
+	// its package initialiser stores to it
+	{
+		roots := []*ssa.Function{root}
+		for _, n := range []string{"expr.Run", "expr.Eval", "vm.Run", "vm.VM.Run", "vm.FetchFn", "vm.fetch", "vm.slice", "vm.in", "vm.length"} {
+			if f := w.Func(n); f != nil {
+				roots = append(roots, f)
+			}
+		}
+		var badg []string
+		_ = roots
+		// every function of the library packages (options such as expr.Env run before Compile and are not in
+		// its static call closure); generators and documentation tools are not part of the library
+		var all []*ssa.Function
+		for _, f := range w.allFuncs() {
+			p := f.Pkg
+			for pf := f; p == nil && pf != nil; pf = pf.Parent() {
+				p = pf.Pkg
+			}
+			if p == nil || !strings.HasPrefix(p.Pkg.Path(), modulePath) || len(f.Blocks) == 0 {
+				continue
+			}
+			rel := strings.TrimPrefix(p.Pkg.Path(), modulePath)
+			if strings.HasPrefix(rel, "/vm/generate") || strings.HasPrefix(rel, "/docgen") || strings.HasPrefix(rel, "/docs") || strings.HasPrefix(rel, "/cmd") {
+				continue
+			}
+			all = append(all, f)
+		}
+		for _, f := range all {
+			if f.Name() == "init" {
+				continue
+			}
+			for _, b := range f.Blocks {
+				for _, in := range b.Instrs {
+					for _, op := range in.Operands(nil) {
+						g, ok := (*op).(*ssa.Global)
+						if !ok || g.Pkg == nil || !strings.HasPrefix(g.Pkg.Pkg.Path(), modulePath) {
+							continue
+						}
+						if why := globalUseIsState(w, in, g); why != "" {
+							badg = append(badg, shortName(f)+": "+why)
+						}
+					}
+				}
+			}
+		}
+		og := &Obligation{Name: "module/effects:no-package-level-state", Kind: "frame", Expect: "unsat", Backend: "effects", Func: "expr.Compile, vm.VM.Run", Meta: map[string]string{}}
+		if len(badg) == 0 {
+			og.Status = "discharged"
+			og.Output = fmt.Sprintf("%d functions of the library packages: package-level variables are only loaded, and only their package initialiser stores to them", len(all))
+		} else {
+			og.Status = "undecided"
+			sort.Strings(badg)
+			og.Output = strings.Join(badg, "; ")
+		}
+		res.Obls = append(res.Obls, og)
+	}
 	declared := map[string]string{}
 	for name, ct := range w.Contracts {
 		for _, c := range ct.Cases["map-range"] {
@@ -218,4 +276,91 @@ func mapRangeShape(f *ssa.Function, r *ssa.Range) string {
 func init() {
 	registerProp(&propDef{id: "C09", level: "proof", gen: genC09, replay: vmReplay,
 		expl: "Run: write frame of VM.Run and of every vm function it calls (nothing that existed before the run is written: program, constants, environment). Compile: effect obligations over the static call closure of expr.Compile (no goroutines, select, clock, random, OS, pointer-to-integer; map iterations only at declared order-insensitive sites with checked shape); makeConstant lays constants out in emission order"})
+}
+
+
+const modulePath = "github.com/antonmedv/expr"
+
+// globalUseIsState: "" if the instruction only reads the package-level
+// variable g (a load, or an element/field address that is only loaded from)
+// and g is never stored to outside its initialiser; otherwise the reason.
+func globalUseIsState(w *World, in ssa.Instruction, g *ssa.Global) string {
+	onlyLoads := func(v ssa.Value) bool {
+		for _, r := range *v.Referrers() {
+			switch r.(type) {
+			case *ssa.UnOp, *ssa.DebugRef:
+			default:
+				return false
+			}
+		}
+		return true
+	}
+	switch x := in.(type) {
+	case *ssa.DebugRef:
+		return ""
+	case *ssa.UnOp:
+		if !w.globalStoredOnlyByInit(g) {
+			return "reads " + g.Pkg.Pkg.Name() + "." + g.Name() + ", which is assigned outside its package initialiser"
+		}
+		return ""
+	case *ssa.FieldAddr:
+		if onlyLoads(x) && w.globalStoredOnlyByInit(g) {
+			return ""
+		}
+	case *ssa.IndexAddr:
+		if onlyLoads(x) && w.globalStoredOnlyByInit(g) {
+			return ""
+		}
+	case *ssa.Store:
+		return "assigns the package-level variable " + g.Pkg.Pkg.Name() + "." + g.Name()
+	}
+	return "uses the package-level variable " + g.Pkg.Pkg.Name() + "." + g.Name() + " as mutable state (its address escapes to " + strings.SplitN(in.String(), "(", 2)[0] + ")"
+}
+
+var storedOnlyByInitMemo = map[*ssa.Global]bool{}
+
+// globalStoredOnlyByInit: no function other than the package initialiser has a
+// store whose address is g or derived from g, and g's address is not passed on.
+func (w *World) globalStoredOnlyByInit(g *ssa.Global) bool {
+	if v, ok := storedOnlyByInitMemo[g]; ok {
+		return v
+	}
+	res := true
+	for _, fn := range w.allFuncs() {
+		if fn.Pkg == g.Pkg && fn.Name() == "init" {
+			continue
+		}
+		for _, b := range fn.Blocks {
+			for _, in := range b.Instrs {
+				for _, op := range in.Operands(nil) {
+					if *op != ssa.Value(g) {
+						continue
+					}
+					switch x := in.(type) {
+					case *ssa.UnOp, *ssa.DebugRef:
+					case *ssa.FieldAddr:
+						for _, r := range *x.Referrers() {
+							if _, ok := r.(*ssa.UnOp); !ok {
+								if _, ok := r.(*ssa.DebugRef); !ok {
+									res = false
+								}
+							}
+						}
+					case *ssa.IndexAddr:
+						for _, r := range *x.Referrers() {
+							if _, ok := r.(*ssa.UnOp); !ok {
+								if _, ok := r.(*ssa.DebugRef); !ok {
+									res = false
+								}
+							}
+						}
+					default:
+						res = false
+					}
+				}
+			}
+		}
+	}
+	storedOnlyByInitMemo[g] = res
+	return res
 }
